@@ -370,7 +370,11 @@ Inductive obs := OErr | OOk (m : mt) (digest size toc : N) (usize : option N) (l
 (* ... plus the number of bytes found under the conversion's writer ref before and after it *)
 Record clayer := mkLayer {
   cl_mt : mt; cl_srcdigest : N; cl_srclabel : N; cl_src : cblob; cl_retry : bool; cl_ok : bool; cl_blob : cblob; cl_obs : obs;
-  cl_leftover : N; cl_ingest_after : N }.
+  cl_leftover : N; cl_ingest_after : N;
+  (* a blob (digest, uncompressed label; 0 = no labels) put into the store before the conversions: the would-be result *)
+  cl_planted : option (N * N);
+  (* uncompressed label of the SOURCE blob after the conversions *)
+  cl_srclabel_after : N }.
 
 (* c_fins: the finalize calls of the case in order: (number of layers converted before the call, (reference parses?,
    observed manifest entries or None for an error)); layers after the last call are converted at the end *)
@@ -379,7 +383,8 @@ Record case := mkCase { c_kind : kind; c_layers : list clayer; c_fins : list (na
 Definition to_layer (c : clayer) : layer := mkLay (cl_mt c) (cl_src c) (if cl_ok c then Some (cl_blob c) else None).
 
 Definition init_store (ls : list clayer) : store :=
-  fold_left (fun s c => aset s (cl_srcdigest c) (cl_srclabel c)) ls [].
+  fold_left (fun s c => match cl_planted c with Some (d, l) => aset s d l | None => s end) ls
+    (fold_left (fun s c => aset s (cl_srcdigest c) (cl_srclabel c)) ls []).
 
 Fixpoint seq_ops (n i : nat) : list op :=
   match n with O => [] | S n' => layer_ops i ++ seq_ops n' (S i) end.
@@ -438,6 +443,13 @@ Fixpoint fins_eqb (a b : list (option (list (N * (N * N))))) : bool :=
 Definition case_ok (c : case) : bool :=
   let fin := run_case c in
   forallb (obs_ok (c_kind c) fin) (c_layers c)
+  (* frame: the store's label of every source blob is what the model says (unchanged unless a conversion committed that digest) *)
+  (* (not predicted for a layer the converter refuses AFTER its Commit — zstd:chunked on Docker's zstd type —: the harness
+     does not learn which blob that conversion committed; an already-converted source reproduces itself there) *)
+  && forallb (fun l => match out_mt (c_kind c) (cl_mt l) with
+                       | None => true
+                       | Some _ => optN_eqb (alookup (sstore fin) (cl_srcdigest l)) (Some (cl_srclabel_after l))
+                       end) (c_layers c)
   && (is_ext (c_kind c) || match c_fins c with [] => true | _ => false end)
   && fins_eqb (map (fun f => snd (snd f)) (c_fins c))
               (fin_outputs cH cLen cPayload cEtoc (c_kind c) (map to_layer (c_layers c)) (case_init c) (case_ops c)).
